@@ -251,3 +251,87 @@ def remote(ctx):
     finally:
         shutil.rmtree(d, ignore_errors=True)
     ctx.sample({"paths": E.paths})
+
+
+# ---------------------------------------------------------------------------------------
+# O3: a [[...]] reference to an entity of an external project gives a link into that project's documentation
+# ---------------------------------------------------------------------------------------
+# unqualified references only: the kind qualifiers for external entities (exttype, extmodule, ...) are not documented
+XLINKS = ["[[shape]]", "[[Shape]]", "[[SHAPE]]", "[[geom]]", "[[Geom]]", "[[geom:shape]]", "[[GEOM:SHAPE]]"]
+
+
+def _xlink(p, text):
+    from fv.props import c11
+    return c11._run_link(p, None, text)
+
+
+def _xexpected(d, text):
+    """href relative to the page /base/page: A's page of the entity, in A's documentation directory `d` (local external project)"""
+    import os
+    t = text.lower()
+    rel = "type/shape.html" if "shape" in t else ("type/tol_t.html" if "tol_t" in t else "module/geom.html")
+    return os.path.relpath(os.path.join(d, rel), "/base/page")
+
+
+def replay_xlink(w):
+    d = _export_a()
+    try:
+        with contextlib.redirect_stdout(io.StringIO()), contextlib.redirect_stderr(io.StringIO()):
+            p = parserh.project_concrete(_b_files("module kinds_of_b", "use kinds", "type unshared"), external={"a": d}, **PSET)
+        try:
+            got = _xlink(p, w["link"])
+        except Exception as e:  # noqa
+            got = "raised " + repr(e)[:120]
+        want = _xexpected(d, w["link"])
+    finally:
+        shutil.rmtree(d, ignore_errors=True)
+    return got != want, {"reference": w["link"], "ford_href": got, "page of the entity in A": want}
+
+
+@obligation("C16", "O3.references-into-external-project", engine="SX(CV)", timeout=900)
+def xlinks(ctx):
+    """[[name]] / [[module:name(kind)]] references (symbolic spelling) to entities only the local external project A defines: the link
+    target is A's page of that entity, relative to the current page; nothing raises"""
+    import ford._markdown as mk
+    import ford.fortran_project as fp
+    import ford.sourceform as sf
+
+    ctx.encode_fn(mk.FordLinkProcessor.convert_link)
+    ctx.encode_fn(fp.Project.find)
+    ctx.bounds.update({"reference spellings": XLINKS})
+    d = _export_a()
+    try:
+        with contextlib.redirect_stdout(io.StringIO()), contextlib.redirect_stderr(io.StringIO()):
+            p = parserh.project_concrete(_b_files("module kinds_of_b", "use kinds", "type unshared"), external={"a": d}, **PSET)
+        from fv import patch
+
+        def h(E):
+            ln = CV.choice(E, "link", XLINKS)
+            E.e.snapshot = lambda m: {"link": choice.value_in_model(m, ln)}
+            try:
+                with contextlib.redirect_stdout(io.StringIO()), contextlib.redirect_stderr(io.StringIO()):
+                    got = _xlink(p, ln)
+            except (AttributeError, TypeError, ValueError, RuntimeError) as e:
+                E.reachable("converted")
+                E.require(False, "a reference into an external project makes FORD fail: " + type(e).__name__)
+                return
+            E.reachable("converted")
+            want = choice.apply(lambda t: _xexpected(d, t), ln)
+            E.require(choice.apply(lambda g, w_: g == w_, got, want), "reference to an external entity does not link to its page in the external documentation")
+
+        with patch.patched(mk, sf, fp):
+            E = sym.Engine(ctx, max_paths=2000, incremental=True)
+            found = E.explore(h)
+        seen = set()
+        for (label, m, pc), snap in zip(found, E.snapshots):
+            if label in seen or not snap:
+                continue
+            seen.add(label)
+            ctx.report(label, snap, replay_xlink)
+        if E.reached.get("converted"):
+            ctx.twins += 1
+        else:
+            ctx.inconclusive.append("vacuity: no reference converted")
+    finally:
+        shutil.rmtree(d, ignore_errors=True)
+    ctx.sample({"paths": E.paths})
